@@ -452,7 +452,35 @@ pub fn fault(a: &Args, rep: &mut Report) {
                             rep.harness_errors.push(v.msg);
                             continue;
                         }
-                        let msg = format!("after a caught panic in {kind:?} #{idx} of {}, a later operation misbehaved: [{}] {}", op.encode(), v.prop, v.msg);
+                        // control: the same operations without the fault. If they misbehave as
+                        // well, the panic is not what broke the map: that is the other
+                        // property's finding, not C07's.
+                        let n_pre = prefix.len() + 1;
+                        let mut ctl: Sess<T, T> = Sess::new(&cfg);
+                        ctl.mon.focus = "";
+                        for o in &opsv {
+                            if !ctl.go(o.clone()) {
+                                break;
+                            }
+                        }
+                        let control_fails = ctl.viol.is_some();
+                        if control_fails {
+                            let cv = ctl.viol.take().unwrap().0;
+                            std::mem::forget(ctl);
+                            rep.bump("continuation_failures_also_without_fault", 1);
+                            if cv.prop != HARNESS {
+                                let e = rep.also.entry(cv.prop.to_string()).or_insert((0, String::new()));
+                                e.0 += 1;
+                                if e.1.is_empty() {
+                                    e.1 = cv.msg.clone();
+                                    println!("ALSO-OBSERVED property={} {} (with and without the injected panic)", cv.prop, cv.msg);
+                                }
+                            }
+                            let _ = n_pre;
+                            continue;
+                        }
+                        drop(ctl);
+                        let msg = format!("after a caught panic in {kind:?} #{idx} of {}, a later operation misbehaved (the same operations are fine without the panic): [{}] {}", op.encode(), v.prop, v.msg);
                         let path = write_replay(&rep.replay_dir, "C07", &tag, &cfg, &opsv, &msg, &[("kind", "fault".into()), ("fault", format!("{kind:?} {idx} at op {}", prefix.len() + 1))]);
                         if rep.prop == "C07" {
                             println!("VIOLATION property=C07 replay={}", path);
